@@ -2,3 +2,9 @@ import LhasaV.Props.C02
 open LhasaV.Props.C02
 #print axioms position_tables_consistent
 #print axioms decoder_tree_invariant
+#print axioms mirror_init
+#print axioms mirror_step
+#print axioms lh1_lockstep
+#print axioms rebuild_reached
+#print axioms mirror_is_what_the_tie_evaluates
+#print axioms lh1_decode_encode
